@@ -110,6 +110,7 @@ func loadProgram(dir string, goarch string) (*Program, error) {
 			}
 		}
 	}
+	buildAnchorAliases(p)
 	return p, nil
 }
 
@@ -196,6 +197,10 @@ func (p *Program) Func(pkgSuffix, recv, name string) *ssa.Function {
 		return nil
 	}
 	T := tn.Type()
+	buildAnchorAliases(p)
+	if alt := anchorTarget[sp.Pkg.Name()+"."+recv+"."+name]; alt != nil {
+		name = alt.Name()
+	}
 	for _, t := range []types.Type{T, types.NewPointer(T)} {
 		ms := p.SSA.MethodSets.MethodSet(t)
 		for i := 0; i < ms.Len(); i++ {
